@@ -15,8 +15,16 @@ let eval_stream (stream : string) (case : string) (impl : string) : verdict =
        from it is a difference from the spec *)
     { model = m; fails = (if m <> impl then [("C18", "-")] else []) }
   | "datecache" ->
-    let rs = List.map (fun s -> z_of_int (int_of_string s)) (split_on ',' case) in
-    let outs = Model.cache_run Model.cache_init rs in
+    (* entries f<secs> (get_date_from_secs) and u (get_date_now_uncached at the current clock) do not touch the cache: the cached
+       calls see the history of plain readings only *)
+    let items = split_on ',' case in
+    let plain = List.filter (fun s -> s <> "u" && s.[0] <> 'f') items in
+    let couts = ref (Model.cache_run Model.cache_init (List.map (fun s -> z_of_int (int_of_string s)) plain)) in
+    let last = ref 0 in
+    let outs = List.map (fun s ->
+        if s = "u" then Model.format_http_date (z_of_int !last)
+        else if s.[0] = 'f' then Model.format_http_date (z_of_int (int_of_string (String.sub s 1 (String.length s - 1))))
+        else begin last := int_of_string s; match !couts with o :: r -> couts := r; o | [] -> failwith "cache_run length" end) items in
     let m = String.concat "," (List.map hex_of_bytes outs) in
     { model = m; fails = (if m <> impl then [("C18", "-")] else []) }
   | "dateresp" ->
